@@ -13,7 +13,7 @@ from ..kernel import (Property, RunResult, Violation, stable_hash,
                       digest_events, HarnessError)
 from .util import drop_candidates
 
-SIZEOF = {"f": 4, "h": 2, "i": 4, "b": 1}
+SIZEOF = {"f": 4, "h": 2, "i": 4, "b": 1, "B": 1}
 
 
 def sample_value(p, i, dfmt):
@@ -136,7 +136,7 @@ class C17(Property):
                                   (1, "rec")])
       cs = W.pick("cs", [1, 2, 3, 4, 8])
       ch = W.pick("ch", [1, 1, 2])
-      dfmt = W.pick("dfmt", ["f", "h", "i", "b"])
+      dfmt = W.pick("dfmt", ["f", "h", "i", "b", "B"])
       per = cs * ch
       if kind == "rec":
         ln = W.pick("rec_cs", [1, 2, 4])     # chunk size of the input device
@@ -618,6 +618,12 @@ class C17(Property):
   # ------------------------------------------------------------------ oracle
   def judge(self, workload, specs, ctl, world, outcome, sched):
     V = Violation
+    for st in world.streams:
+      if st.write_while_stopped:
+        return V("device-protocol", "write-on-stopped-stream",
+                 "stream s%d was written to %d times while stopped (a "
+                 "PortAudio backend refuses that: the chunk is lost)"
+                 % (st.sid, st.write_while_stopped))
     # a player thread that crashed lost samples for sure
     for t in sched.threads:
       if t.crashed is not None:
